@@ -4,7 +4,7 @@
    Create / Iterate(store) / Patch / Store / Load(update) of bounded length and checks the C07 properties on the model
    (StoreLoadIdentity, LoadYieldsStored, LoadStoreIdempotent, CreationOptionsSurvive); every action must be covered.
    The package family: platform x user variable file x replication x DoWhile x blueprint layers defining the same option
-   (default/platform x global/stage); a stage variable that references replica / loopIteration and a variable the component
+   (default/platform x global/stage) and a variable (`chunk`) that the stage scopes shadow; a stage variable that references replica / loopIteration and a variable the component
    overrides; a component that sets options explicitly to [] / "" / 0 / false where blueprint, built-in and global values are
    not (explicitly empty is not absent); the live objects are made by Create or by Load (Iterate commutes with Store;Load).
    Packages in the legacy DOSINI format (stored to / reloaded from the .instance.conf files), packages whose conf/ already
@@ -32,6 +32,7 @@ PID = "C07"
 ACTIONS = ["Create", "Iterate", "Patch", "Store", "Load", "Reparam"]
 DOSINI_VIEW = ("live", "plat", "uv", "sv", "nrep", "iters", "dopt")       # the facts of View a legacy package is compared on
 
+CHUNK = {"dg": 10, "ds": 200, "pg": 40, "ps": 500}          # the variable `chunk` given by each variable layer (spec: ChunkValue)
 THREADS = {"dg": 1, "ds": 2, "pg": 4, "ps": 8}            # numberThreads given by each blueprint layer (spec: Value)
 BP_LAYERS = {"g": ["dg"], "gs": ["dg", "ds"], "sP": ["ds", "pg"], "all": ["dg", "ds", "pg", "ps"]}    # spec: Defines
 
@@ -71,7 +72,7 @@ def package_files(pk):
     if pk.get("fmt", "flowir") == "dosini":
         return dosini_package_files(pk)
     lz = lazy_suffix(pk)
-    wargs = " %(uv)s %(pv)s" + (" %(lz)s" if lz else "")
+    wargs = " %(uv)s %(pv)s %(chunk)s" + (" %(lz)s" if lz else "")
     wattr = {"replicate": "%(n)s"} if pk["repl"] else None
     gattr = {"aggregate": True} if pk["repl"] else None
 
@@ -125,8 +126,10 @@ def package_files(pk):
         plat = "default" if layer[0] == "d" else "plat"
         if layer[1] == "g":
             blueprint[plat]["global"]["resourceRequest"] = {"numberThreads": THREADS[layer]}
+            variables[plat]["global"]["chunk"] = CHUNK[layer]
         else:
             blueprint[plat]["stages"][1] = {"resourceRequest": {"numberThreads": THREADS[layer]}}
+            variables[plat]["stages"].setdefault(1, {})["chunk"] = CHUNK[layer]
     main = {"platforms": ["default", "plat"],
             "output": {"result": {"data-in": "stage0.gen/out.stdout:copy", "description": "key output %(pv)s"}},
             "status-report": {0: {"stage-weight": 0.1}, 1: {"stage-weight": 0.4}, 2: {"stage-weight": 0.3}, 3: {"stage-weight": 0.2}},
@@ -239,13 +242,14 @@ def observed_view(exp, pk):
     ovr = args[0] == "OVR"
     if ovr:
         args = args[1:]
-    threads, lzs, wargs = set(), {}, set()
+    threads, lzs, wargs, chunks = set(), {}, set(), set()
     for (it, rep), n in sorted(works.items()):
         wk = wg.configurationForNode(n, raw=False)
         threads.add(int(wk["resourceRequest"]["numberThreads"]))
         a = wk["command"]["arguments"].split()
         wargs.add(tuple(a[1:3]))
-        lzs[(it, rep)] = a[3] if len(a) > 3 else None
+        chunks.add(int(a[3]))
+        lzs[(it, rep)] = a[4] if len(a) > 4 else None
     gathers = [n for n in nodes if n.startswith("stage2.") and n.split(".", 1)[1].split("#")[-1].startswith("gather")]
     threads2 = {int(wg.configurationForNode(n, raw=False)["resourceRequest"]["numberThreads"]) for n in gathers}
     oc = wg.configurationForNode("stage0.opt", raw=False)
@@ -258,6 +262,7 @@ def observed_view(exp, pk):
             "pp": int(v.get("pp")), "iters": iters,
             "threads": sorted(threads)[0] if len(threads) == 1 else sorted(threads),
             "threads2": sorted(threads2)[0] if len(threads2) == 1 else sorted(threads2),
+            "chunk": sorted(chunks)[0] if len(chunks) == 1 else sorted(chunks),
             "_args": args, "_work_args": sorted(wargs), "_lz": lzs, "_every_iteration_same_replicas": every}
 
 
